@@ -99,6 +99,37 @@ var c08Rejs = []c08Rej{
 	{Name: "transport", Class: "transport"},
 }
 
+// c08OddBodies: well-formed or broken JSON a node may put into an error response, of shapes vouch's error
+// classifiers do not expect.  Only the crash-only variant of the scenarios (C16) uses them: the entries are
+// appended to c08Rejs with class "oddbody" (Reason holds the body) and never drawn by the C08 generator.
+var c08OddBodies = []string{
+	`{"failures":[null]}`,
+	`{"code":400,"message":"x","failures":[null,{"index":0,"message":"Verification: PriorSyncCommitteeMessageKnown"}]}`,
+	`{"code":400,"message":"x","failures":[{"index":0,"message":"Ignoring sync committee message as a duplicate was processed during validation"},null]}`,
+	`{"failures":[null,{"index":0,"message":"Verification: PriorAttestationKnown"}]}`,
+	`{"failures":[{"index":0,"message":"UnknownHeadBlock"},null]}`,
+	`{"failures":[null,{"index":0,"message":"Verification: AggregatorAlreadyKnown"}]}`,
+	`{"failures":null}`,
+	`{"failures":[{}]}`,
+	`{"failures":[{"index":-1,"message":null}]}`,
+	`{"failures":"all"}`,
+	`{`,
+	`}{`,
+	`{"code":null}`,
+	`[]`,
+	`null`,
+	`rejected { see log`,
+	`{"failures":[{"index":99999999999999999999,"message":"x"}]}`,
+}
+
+var c08NNormalRejs = len(c08Rejs)
+
+func init() {
+	for i, b := range c08OddBodies {
+		c08Rejs = append(c08Rejs, c08Rej{Name: fmt.Sprintf("odd-body-%d", i), Class: "oddbody", Reason: b})
+	}
+}
+
 // c08Documented lists, per submission kind and client, the rejection reasons
 // Vouch's source says it deliberately ignores (the comments in
 // submitattestations.go handleAttestationsError, and the trace messages in
@@ -203,6 +234,8 @@ func c08Error(kind string, rej c08Rej, n int) error {
 		body = c08FailList(rej.Dialect, []string{c08DupText(kind, rej.Dialect, "duplicate", 0), real})
 	case "real":
 		body = c08FailList(rej.Dialect, []string{real})
+	case "oddbody":
+		body = rej.Reason
 	case "malformed":
 		body = `{"code":400,"message":"BAD_REQUEST: trunc`
 	case "transport":
@@ -266,11 +299,11 @@ func c08GenBeh(p *simrt.Tape, client string, t time.Duration) c08Beh {
 		b.Lat = 0
 	default:
 		b.Act = "reject"
-		b.Rej = p.Pick(len(c08Rejs))
+		b.Rej = p.Pick(c08NNormalRejs)
 		if p.Pct(60) {
 			// prefer what this client would say
 			var own []int
-			for i, r := range c08Rejs {
+			for i, r := range c08Rejs[:c08NNormalRejs] {
 				if r.Dialect == client || r.Dialect == "" {
 					own = append(own, i)
 				}
@@ -929,4 +962,14 @@ func init() {
 		sim.Register(&sim.Scenario{Property: "C08", Name: "multinode-" + k, Gen: c08Gen(k, false), Exec: c08Exec, Weight: w})
 	}
 	sim.Register(&sim.Scenario{Property: "C08", Name: "immediate", Gen: c08Gen("", true), Exec: c08Exec, Weight: 1})
+	// probe (not part of C08's space; C16 runs it for crashes only): every rejection carries an odd error body
+	sim.Register(&sim.Scenario{Property: "C08PROBE", Name: "odd-error-bodies", Exec: c08Exec, Gen: func(p *simrt.Tape) any {
+		pl := c08Gen(c08Kinds[p.Pick(len(c08Kinds))], false)(p).(*c08Plan)
+		for i := range pl.Nodes {
+			if pl.Nodes[i].Base.Act != "hang" {
+				pl.Nodes[i].Base.Act, pl.Nodes[i].Base.Rej = "reject", c08NNormalRejs+p.Pick(len(c08OddBodies))
+			}
+		}
+		return pl
+	}})
 }
